@@ -27,7 +27,7 @@ def _walk_worker(args):
     """thorough tier: one worker = its own driver, PRNG stream and share of the generated worlds"""
     prop, wseed, ngen, walks, steps, shipped = args
     rng = random.Random(wseed)
-    CW.SYNC_ON_DIFF = prop != "C02"
+    CW.SYNC_ON_DIFF = prop not in ("C02", "C12")      # C12: data or blocks that turn up where nobody put them show in what OTHER agents then find there
     S = CW.Stats()
     fails = []
     drv = Driver()
@@ -71,7 +71,7 @@ def main(prop, tier, replay=None):
         else:
             fails_other[p] = fails_other.get(p, 0) + 1
 
-    CW.SYNC_ON_DIFF = prop != "C02"
+    CW.SYNC_ON_DIFF = prop not in ("C02", "C12")      # C12: data or blocks that turn up where nobody put them show in what OTHER agents then find there
     if info.get("build_ok"):
         rng = random.Random(1000003 * seed() + {"C02": 2, "C03": 3, "C08": 8, "C11": 11, "C12": 12}[prop])
         drv = Driver()
